@@ -9,14 +9,16 @@ ID = "C25"
 LEVEL = "fault_enumeration"
 QUICK_RUNS = 1500
 THOROUGH_SECONDS = 600
-RULE_TEXT = ("2-6 tasks over 1-3 keys entering KeyedLock critical sections with start delays and hold times on a grid that produces "
+RULE_TEXT = ("2-6 tasks over 1-3 keys entering KeyedLock critical sections (some twice: re-taking the key straight after releasing it, "
+             "with or without yielding; a third of the configurations on two KeyedLock objects sharing key names, which must not "
+             "interfere) with start delays and hold times on a grid that produces "
              "ties; task cancellation is the fault: for each sampled configuration the run is repeated with one victim task "
              "cancelled at the j-th scheduling point after a grid instant, j ENUMERATED over 0..J (quick: J<=6 per configuration; "
              "every (victim, instant, j) triple is one evaluation). Non-trivial: the cancellation hit a task that was waiting for "
              "or holding a lock while another task contended for the same key; distinct = abstract trace shape.")
 COMPONENTS = {"real": ["llama_agents.server._keyed_lock.KeyedLock on asyncio.Lock"], "stub": [], "sim": ["loop, clock, canceller"]}
 ASSUMPTIONS = ["cancellation is delivered between two loop callbacks, as asyncio does"]
-EXPECTED_PROBES = ["cancel-while-waiting", "cancel-while-holding", "contended-key"]
+EXPECTED_PROBES = ["cancel-while-waiting", "cancel-while-holding", "contended-key", "re-entered-after-release"]
 LEVEL_TEXT = ("Fault enumeration over cancellation points (exhaustive in j for each sampled configuration/instant) on top of seeded "
               "sampling of task configurations; invariants checked at every stable instant and at quiescence.")
 LEVEL_NOTE = "Trusted: simulator loop. 'exhaustive' refers only to the enumerated cancellation index dimension of each sampled configuration."
@@ -28,41 +30,51 @@ CFG = {"quiesce_gap": 100.0}
 def _scenario(cfg, victim, at, j):
     async def scenario(world):
         from llama_agents.server._keyed_lock import KeyedLock
-        locks = KeyedLock()
+        lock_objs = [KeyedLock() for _ in range(cfg.get("nobj", 1))]
+        locks = lock_objs[0]
         st = {"inside": {}, "state": {}, "entered": set(), "cancelled": set()}
         world._st = st
         world._locks = locks
 
-        async def worker(i, key, start, hold):
+        async def worker(i, key, start, hold, again=None, obj=0):
             name = f"t{i}"
-            st["state"][name] = ("idle", key)
+            lk = lock_objs[obj % len(lock_objs)]
+            # bookkeeping key: the (lock object, key) pair; different KeyedLock objects are independent locks
+            bk = key if len(lock_objs) == 1 else f"{obj % len(lock_objs)}:{key}"
+            st["state"][name] = ("idle", bk)
             try:
                 if start:
                     await asyncio.sleep(start)
-                st["state"][name] = ("waiting", key)
-                world.trace.log("request", task=name, key=key)
-                async with locks(key):
-                    st["state"][name] = ("inside", key)
-                    st["entered"].add(name)
-                    ins = st["inside"].setdefault(key, set())
-                    ins.add(name)
-                    world.trace.log("enter", task=name, key=key, inside=sorted(ins))
-                    if len(ins) > 1:
-                        world.violate("C25.mutex", f"tasks {sorted(ins)} are inside the critical section of key {key} together")
-                    try:
-                        if hold:
-                            await asyncio.sleep(hold)
-                        else:
-                            await asyncio.sleep(0)
-                    finally:
-                        ins.discard(name)
-                        world.trace.log("leave", task=name, key=key)
-                st["state"][name] = ("done", key)
+                for section in range(2 if again else 1):
+                    if section and again == "yield":
+                        await asyncio.sleep(0)
+                    # (again == "now": the same task takes the key again straight after releasing it, without yielding to the loop)
+                    st["state"][name] = ("waiting", bk)
+                    world.trace.log("request", task=name, key=bk, section=section)
+                    async with lk(key):
+                        st["state"][name] = ("inside", bk)
+                        st["entered"].add(name)
+                        ins = st["inside"].setdefault(bk, set())
+                        ins.add(name)
+                        world.trace.log("enter", task=name, key=bk, inside=sorted(ins))
+                        if section:
+                            world.probe("re-entered-after-release")
+                        if len(ins) > 1:
+                            world.violate("C25.mutex", f"tasks {sorted(ins)} are inside the critical section of key {bk} together")
+                        try:
+                            if hold:
+                                await asyncio.sleep(hold)
+                            else:
+                                await asyncio.sleep(0)
+                        finally:
+                            ins.discard(name)
+                            world.trace.log("leave", task=name, key=bk)
+                st["state"][name] = ("done", bk)
             except asyncio.CancelledError:
                 was = st["state"][name][0]
-                st["state"][name] = ("cancelled", key)
+                st["state"][name] = ("cancelled", bk)
                 st["cancelled"].add(name)
-                world.trace.log("cancelled", task=name, key=key, was=was)
+                world.trace.log("cancelled", task=name, key=bk, was=was)
                 if was == "waiting":
                     world.probe("cancel-while-waiting")
                 elif was == "inside":
@@ -74,8 +86,7 @@ def _scenario(cfg, victim, at, j):
         def stable():
             for name, (s, key) in st["state"].items():
                 if s == "waiting" and not st["inside"].get(key):
-                    ml = getattr(locks, "_main_lock", None)
-                    if ml is None or not ml.locked():
+                    if not any(getattr(getattr(o, "_main_lock", None), "locked", lambda: False)() for o in lock_objs):
                         # somebody else may be between acquire and our bookkeeping only inside one callback; at a stable instant not
                         holders = [n for n, (s2, k2) in st["state"].items() if s2 == "inside" and k2 == key]
                         if not holders:
@@ -104,8 +115,10 @@ def _scenario(cfg, victim, at, j):
                 world.violate("C25.starved", f"task {name} never entered/finished (state {s}) for key {key}")
         # whatever per-key bookkeeping the lock keeps (today: _locks and _refs) must be empty again; looked up generically so that a
         # restructured KeyedLock is still judged instead of crashing the harness
-        leftover = {k: (sorted(map(str, v)) if not isinstance(v, dict) else {str(a): str(b) for a, b in v.items()})
-                    for k, v in vars(locks).items() if isinstance(v, (dict, set, list)) and v}
+        leftover = {f"{n}.{k}" if len(lock_objs) > 1 else k: (sorted(map(str, v)) if not isinstance(v, dict) else {str(a): str(b) for a, b in v.items()})
+                    for n, o in enumerate(lock_objs)
+                    for k, v in list(vars(o).items()) + [(k2, v2) for k2, v2 in vars(type(o)).items() if not k2.startswith("__")]
+                    if isinstance(v, (dict, set, list)) and v}
         if leftover:
             world.violate("C25.leak", f"lock state remains after all holders and waiters are gone: {leftover}")
         return st
@@ -116,11 +129,15 @@ def run(tape):
     nkeys = tape.rng_int(1, 3, "nkeys")
     n = tape.rng_int(2, 6, "ntasks")
     grid = [0, 0, 1, 1, 2, 3]
-    cfg = {"workers": [(f"k{tape.draw(nkeys, 'key')}", tape.choice(grid, "start"), tape.choice(grid, "hold")) for _ in range(n)]}
+    # a third of the configurations use two KeyedLock objects with the same keys (the server keys several of them by run id)
+    nobj = 2 if tape.draw(3, "nobj") == 0 else 1
+    cfg = {"nobj": nobj,
+           "workers": [(f"k{tape.draw(nkeys, 'key')}", tape.choice(grid, "start"), tape.choice(grid, "hold"),
+                        tape.choice([None, None, "now", "yield"], "again"), tape.draw(nobj, "obj") if nobj > 1 else 0) for _ in range(n)]}
     victim = tape.draw(n, "victim")
     at = tape.choice([0, 1, 2, 3, 4], "cancel.at")
     # contended key?
-    keys = [w[0] for w in cfg["workers"]]
+    keys = [(w[4], w[0]) for w in cfg["workers"]]
     J = 6
     agg = None
     from sim.tape import Tape
